@@ -75,7 +75,7 @@ def ref_interp(weights, u, dx, dim):
 def history(r, nbodies, length):
     ops = []
     for _ in range(length):
-        kind = r.choice(["full", "full", "lag", "step", "step", "move", "flow"])
+        kind = r.choice(["full", "full", "lag", "step", "step", "move", "flow", "nudge"])
         b = int(r.integers(0, nbodies))
         if kind == "step":
             dt = float(r.choice([0.0, -1e-3, 2.5e-3, 1e-3, float(r.uniform(0, 5e-3))]))
@@ -125,6 +125,10 @@ def run_history(seed, case, dim, reset, nbodies, real_t, length):
         if kind == "move":
             bd["pos"] += (r.uniform(-0.3, 0.3, size=bd["pos"].shape) * dx).astype(real_t)
             bd["vel"][...] = r.normal(size=bd["vel"].shape)
+            continue
+        if kind == "nudge":
+            # a creeping body: displacements of a few 1e-6 of the coordinate (well above rounding, below any `allclose` default)
+            bd["pos"] *= (1 + r.uniform(-4e-6, 4e-6, size=bd["pos"].shape)).astype(real_t)
             continue
         if kind == "flow":
             u[...] = r.normal(size=u.shape)
@@ -254,6 +258,8 @@ def oracle(seed=0, tier="quick", aimed=None):
             hist.append(" ".join(map(str, op)))
             if kind == "move":
                 bd["pos"] += (r.uniform(-0.3, 0.3, size=bd["pos"].shape) * dx).astype(real_t); bd["vel"][...] = r.normal(size=bd["vel"].shape); continue
+            if kind == "nudge":
+                bd["pos"] *= (1 + r.uniform(-4e-6, 4e-6, size=bd["pos"].shape)).astype(real_t); continue
             if kind == "flow":
                 u[...] = r.normal(size=u.shape); continue
             if kind == "step":
@@ -285,6 +291,14 @@ def oracle(seed=0, tier="quick", aimed=None):
                     "oracle": "c10_integral", "what": "integral / clock differs from the Euler-forward sum over the dt values passed", **info, "history": hist}}
         if len(samples) < 2:
             samples.append({"oracle": "c10", **info, "history": hist})
+    # real bodies: every evaluation uses the markers of the body's CURRENT state, whichever entry point is used
+    from oracles import c0809
+
+    n, bad = c0809.state_only(seed, tier)
+    cases += n
+    if bad is not None:
+        return {"ok": False, "cases": cases, "samples": samples, "failing_input": bad}
+    samples.append({"oracle": "c10_markers_of_current_state", "evaluations": n})
     return {"ok": True, "cases": cases, "failing_input": None, "samples": samples}
 
 
